@@ -6,6 +6,7 @@ use std::rc::Rc;
 use subprocess::{Popen, PopenConfig, PopenError, Redirection};
 use vreplay::*;
 
+mod builder;
 mod comm;
 mod fail;
 mod ident;
@@ -21,6 +22,7 @@ fn main() {
         "spawn" => spawn::run(&a),
         "fail" => fail::run(&a),
         "comm" => comm::run(&a),
+        "builder" => builder::run(&a),
         "ident" => ident::run(&a),
         "life" => life::run(&a),
         "lookup" => lookup::run(&a),
